@@ -11,6 +11,8 @@ import (
 	"os/exec"
 	"path/filepath"
 	"runtime"
+	"runtime/debug"
+	"runtime/pprof"
 	"sort"
 	"strconv"
 	"strings"
@@ -69,7 +71,14 @@ func cmdWorker(args []string) int {
 	solver := fs.String("solver", "z3", "z3|z3-new|cvc5")
 	timeout := fs.Int("timeout", 60000, "per-query timeout ms")
 	verbose := fs.Bool("v", false, "verbose")
+	prof := fs.String("cpuprofile", "", "write cpu profile")
 	fs.Parse(args)
+	if *prof != "" {
+		f, _ := os.Create(*prof)
+		pprof.StartCPUProfile(f)
+		defer pprof.StopCPUProfile()
+	}
+	debug.SetGCPercent(400)
 	out, err := os.Create(*outFile)
 	if err != nil {
 		fmt.Fprintln(os.Stderr, err)
@@ -128,7 +137,7 @@ func cmdWorker(args []string) int {
 		eng.Unwind = pd.Unwind
 	}
 	eng.Findings = loadFindings(pd.ID)
-	if *solver == "z3" {
+	if *solver == pd.solver() {
 		eng.FallbackKinds = pd.Fallbacks
 	}
 	if err := eng.Init(); err != nil {
@@ -340,11 +349,14 @@ func cmdRun(args []string) int {
 		jobs = f
 	}
 	rep := newReport(pd, *tier, seed)
-	sum := runWorkers(pd, jobs, *workers, "z3", pd.timeoutMs(*tier), work, "")
-	rep.absorb(sum, "z3")
+	sum := runWorkers(pd, jobs, *workers, pd.solver(), pd.timeoutMs(*tier), work, "")
+	rep.absorb(sum, pd.solver())
 	// thorough: re-discharge with the other solvers
 	if *tier == "thorough" && !pd.SingleSolver {
-		for _, sv := range []string{"cvc5", "z3-new"} {
+		for _, sv := range []string{"cvc5", "z3-new", "z3"} {
+			if sv == pd.solver() || (sv == "z3" && pd.solver() != "z3") {
+				continue
+			}
 			s2 := runWorkers(pd, jobs, *workers, sv, pd.timeoutMs(*tier), work, "")
 			rep.crossCheck(s2, sv)
 		}
